@@ -677,22 +677,35 @@ class Gen:
         self.tok += 1
         return ["write", f"tk{self.tok}", None]
 
-    def handle_ops(self, lo, hi, writable_bias=True):
+    def handle_ops(self, lo, hi, writable=None):
+        """Operations on the open handle; `writable` is the generator's guess whether a patch is
+        pending (None: unknown), used only to weight the choice — refused calls are wanted too."""
         rng = self.rng
         out = []
         for _ in range(rng.randint(lo, hi)):
-            k = rng.choices(["write", "commit", "cp", "discard", "read", "merge", "close"],
-                            [40, 16, 14, 9, 9, 10, 2])[0]
+            kinds = ["write", "commit", "cp", "discard", "read", "merge", "close"]
+            if writable is True:
+                wts = [48, 20, 3, 10, 9, 5, 2]
+            elif writable is False:
+                wts = [10, 6, 32, 5, 14, 30, 3]
+            else:
+                wts = [40, 16, 14, 9, 9, 10, 2]
+            k = rng.choices(kinds, wts)[0]
             if k == "write":
                 out.append(self.write())
             elif k in ("cp", "commit"):
                 out.append([k, self.id()])
+                if writable is not None:
+                    writable = (k == "cp") or (writable and k != "commit")
             elif k == "merge":
                 out.append(["merge", rng.choice(["T", "F"]), rng.choices(MERGE_TARGETS, [3, 3, 3, 2, 1])[0], self.id()])
             elif k == "close":
                 out.append(["close", rng.choice(["T", "F"]), self.id()])
+                writable = None
             else:
                 out.append([k])
+                if k == "discard" and writable:
+                    writable = False
         return out
 
     def session(self, n=None, mode=None, cls=None):
@@ -713,7 +726,7 @@ class Gen:
             target = ["list*", n, rng.choices(["full", "prefix", "foreign", "missing"], [70, 18, 6, 6])[0]]
         how = "with" if rng.random() < 0.3 else "plain"
         cmds = [["open", cls, mode, target, self.id(), self.id(), how]]
-        cmds += self.handle_ops(0, 8)
+        cmds += self.handle_ops(0, 9, writable=(mode != "r") if rng.random() < 0.85 else None)
         if how == "with":
             cmds.append(["exit", rng.choice(["T", "F"]), self.id()])
             cmds.append(["drop"])
@@ -807,7 +820,7 @@ def run(ctx: vlib.Ctx):
         "code after every operation (a test, not a proof)",
     ]
     cases = [{"cmds": h, "seed": 7 + i, "rich": True, "pattern": True} for i, h in enumerate(pattern_histories())]
-    for _ in range(ctx.budget(110, 1200)):
+    for _ in range(ctx.budget(150, 3000)):
         cases.append({"cmds": gen_history(ctx.rng), "seed": ctx.rng.randrange(10**9), "rich": ctx.rng.random() < 0.7,
                       "pattern": False})
     results = vlib.pmap(w_history, cases, chunksize=2)
@@ -946,5 +959,17 @@ def replay(rep) -> int:
             print("step", p["step"], p["cmd"], "->", p["what"])
         print("still failing" if res["problems"] else "no longer failing")
         return 1 if res["problems"] else 0
+    if rep.get("kind") == "side-finding-polluted-commit":
+        # not a C02 violation: a refused manifest-aware commit changes the user block held in memory
+        res = run_history({"cmds": rep["cmds"], "seed": rep.get("seed", 0), "rich": False})
+        if res["status"] != "ok":
+            print("could not run:", res)
+            return 1
+        n = res["stats"]["refused_commit_polluted_memory"]
+        print(f"refused commits that changed the in-memory user block: {n}; C02 oracle problems: {len(res['problems'])}")
+        for c, ob in zip(res["concrete"], res["obs"]):
+            print("  ", c, "->", ob["outcome"], "| links of containers:",
+                  {f[0]: f[7] for f in ob["main"] + ob["other"]}, "| sidecars:", dict(ob["sides"] + ob["osides"]))
+        return 1 if n else 0
     print("replay names a proof obligation or correspondence; re-run the check itself")
     return 1
